@@ -80,6 +80,31 @@ class CaseBuilder:
     def eq(self, a, b):
         return self._op("eq", {"op": "eq", "a": a, "b": b}, "o_eq %s %s" % (self.sl(a), self.sl(b)), (a, b))
 
+    def solve(self, method, iters, max_reg=0.0, threads=1, params=None, draws=None, yield_seed=0, record=False):
+        """params: None | preset name | [a, b, g, w] floats; draws: None | {"chance": [[..]], "player": [[..]]}"""
+        k = self.slot()
+        sname = "s%d_%d" % (self.cid, k)
+        presets = {"vanilla": 0, "lcfr": 1, "cfr_plus": 2, "dcfr": 3, "dcfr_prune": 4, "default": 5}
+        if params is None:
+            cp, jp = "(preset 5%N)", None
+        elif isinstance(params, str):
+            cp, jp = "(preset %d%%N)" % presets[params], params
+        else:
+            cp = "(params_new %s)" % " ".join(coq_float(x) for x in params)
+            jp = [f2b(x) for x in params]
+        if draws is None:
+            cd = "no_draw"
+        else:
+            tab = lambda rows: coq_list([coq_list([coq_N(v) for v in r]) for r in rows])
+            cd = "(table_draw %s %s)" % (tab(draws["chance"]), tab(draws["player"]))
+        meth = {"full": "Full", "sampled": "Sampled", "external": "External"}[method]
+        self._def(sname, "f_solve %s %s %s %s %s %s %s" % (self.g, meth, cd, cp, coq_N(iters), coq_float(max_reg), coq_N(threads)))
+        self._def(self.sl(k), "p_of_solved %s" % sname)
+        js = {"op": "solve", "dst": k, "method": method, "iters": iters, "max_reg": f2b(max_reg),
+              "threads": threads, "params": jp, "draws": draws, "yield_seed": yield_seed, "record": record}
+        self._op("solve", js, "o_solved %s" % sname, (), k)
+        return k
+
     def raw(self, kind, js, defs, out, srcs=(), dst=None):
         """escape hatch used by the solver properties"""
         for name, body in defs:
@@ -171,6 +196,17 @@ def compare_op(kind, impl, model, rel=1e-9, multi_names=None):
     si, pi = norm_impl_simple(impl)
     errs = SERR if kind in ("import", "roundtrip") else None
     sm, pm = norm_model_simple(model, errs)
+    if kind == "solve":
+        if si == "params_panic":
+            return None if model["tag"] == 4 else "RegretParams::new panicked (%s) but the model accepts the tuple" % pi
+        if model["tag"] == 4:
+            return "model rejects the parameter tuple but RegretParams::new accepted it"
+        if si == "err" and pi == "ThreadSpawnError":
+            return None   # documented, OS dependent
+        if si == "err":
+            return None if sm == "err" else "impl ThreadOverflow, model %s" % sm
+        if si == "ok" and sm == "ok":
+            return deep_close(_floats(pi), [float(x) for x in pm[:3]], rel, "bounds")
     if si != sm:
         return "status impl=%s(%s) model=%s(%s)" % (si, pi if si != "ok" else "", sm, pm if sm != "ok" else "")
     if si in ("skip", "panic"):
